@@ -151,6 +151,17 @@ func c07RestCases() []c07Case {
 	add("body-httpbody-empty", "Blob", "/v1/blob/f", "", "text/plain; charset=utf-8", nil)
 	// precedence: body, then path variables, then query parameters - a query parameter that
 	// names a field also bound by the path (or set by the body) is applied last
+	// one field addressed under its proto name and its JSON name, and two members of one oneof:
+	// parameters apply in the order in which they stand in the query
+	// (each is run 8 times: an implementation that ranges over a map of the parameters binds them in
+	// an order that Go randomises per iteration - a source of nondeterminism the explorer does not own)
+	for rep := 0; rep < 8; rep++ {
+		add("query-same-field-two-names", "Pure", "/v1/pure/n", "extra_text=first&extraText=second", "", nil)
+		add("query-same-field-two-names", "Pure", "/v1/pure/n", "extraText=first&extra_text=second", "", nil)
+		add("query-two-members-of-a-oneof", "Pure", "/v1/pure/n", "pv.oneof_double_value=1.5&pv.oneof_enum_value=ENUM_VALUE", "", nil)
+		add("query-two-members-of-a-oneof", "Pure", "/v1/pure/n", "pv.oneofEnumValue=ENUM_VALUE&pv.oneof_double_value=1.5", "", nil)
+		add("query-three-spellings-interleaved", "Pure", "/v1/pure/n", "tags=a&extra_text=x&tags=b&extraText=y&num=1&num=2", "", nil)
+	}
 	add("query-names-path-variable", "Pure", "/v1/pure/from-path", "name=from-query", "", nil)
 	add("query-names-path-variable-and-more", "Pure", "/v1/pure/from-path", "num=3&name=from-query&name=second", "", nil)
 	add("query-names-nested-path-variable", "Nested", "/v1/nested/from-path:act", "child.name=from-query", "application/json", []byte(`["t"]`))
